@@ -40,6 +40,11 @@ class Features:
         self.top_kinds = None  # restrict top-level kind
         self.enum_default = 0.2
         self.empty_records = True
+        self.union_weight = 6
+        self.union_max = 4
+        self.branch_record_weight = 5
+        self.field_overlap = False  # records draw field names from the same start (overlapping names)
+        self.default_prob = 0.4
         self.__dict__.update(kw)
 
 
@@ -122,11 +127,11 @@ class SchemaBuilder:
         if room:
             pairs += [("enum", 2), ("fixed", 2)]
             if deep:
-                pairs.append(("record", 12 if ctx == "top" else 5))
+                pairs.append(("record", 12 if ctx == "top" else (f.branch_record_weight if ctx in ("branch", "branch_escape") else 5)))
         if deep:
             pairs += [("array", 3), ("map", 3)]
             if ctx not in ("branch", "branch_escape"):
-                pairs.append(("union", 6))
+                pairs.append(("union", f.union_weight))
         refs = self.referable(ns, exclude)
         complete = [r for r in refs if r not in self.open]
         recursive = [r for r in refs if r in self.open]
@@ -171,7 +176,7 @@ class SchemaBuilder:
 
     def gen_union(self, ns, depth):
         d = self.d
-        n = d.rng(1, 4)
+        n = d.rng(1, self.f.union_max)
         branches = []
         used_kinds = set()
         used_names = set()
@@ -214,14 +219,14 @@ class SchemaBuilder:
         self.open.append(full)
         lo = 0 if f.empty_records else 1
         nf = d.weighted([(1, 4), (2, 5), (3, 4), (0, 1 if lo == 0 else 0), (5, 1)])
-        start = d.i(len(FIELDS))
+        start = d.i(3) if f.field_overlap else d.i(len(FIELDS))
         for j in range(nf):
-            fname = FIELDS[(start + j * 5) % len(FIELDS)]
+            fname = FIELDS[(start + j) % len(FIELDS)] if f.field_overlap else FIELDS[(start + j * 5) % len(FIELDS)]
             if any(x["name"] == fname for x in node["fields"]):
                 fname = f"{fname}{j}"
             ftype = self.gen(tns, depth + 1, "field")
             fld = {"name": fname, "type": ftype, "aliases": []}
-            if f.defaults and d.p(0.4):
+            if f.defaults and d.p(f.default_prob):
                 try:
                     fld["default"] = self.json_default(ftype, 0)
                 except _NoDefault:
